@@ -174,4 +174,36 @@ theorem expectFlag_star (rest : Bytes) (e : Option Err) (l : List (Nat × Bool))
     expectFlag ⟨[92, 42] ++ rest, e, l⟩ = (true, [92, 42], ⟨rest, e, l⟩) := by
   simp [expectFlag, acceptByte]
 
+theorem canonIn_fold (table : List Bytes) (s : Bytes) :
+    lowerAscii (canonIn table s) = lowerAscii s := by
+  unfold canonIn
+  cases h : table.find? (fun t => lowerAscii t = lowerAscii s) with
+  | none => rfl
+  | some t => simpa using List.find?_some h
+
+theorem canonIn_id (table : List Bytes) (s : Bytes)
+    (h : ∀ t ∈ table, lowerAscii t ≠ lowerAscii s) : canonIn table s = s := by
+  unfold canonIn
+  rw [List.find?_eq_none.2 (by intro t ht; simpa using h t ht)]
+
+
+theorem isBackslashAtom_head (f : Bytes) (h : isBackslashAtom f = true) : f.head? = some 92 := by
+  unfold isBackslashAtom at h
+  split at h
+  · simp
+  · simp at h
+
+theorem isAtom_head (f : Bytes) (h : isAtom f = true) : f.head? ≠ some 92 := by
+  cases f with
+  | nil => simp
+  | cons c r =>
+    simp only [isAtom, List.all_cons, Bool.and_eq_true] at h
+    intro hc
+    simp only [List.head?_cons, Option.some.injEq] at hc
+    subst hc
+    have : atomChar 92 = false := by decide
+    rw [this] at h
+    simp at h
+
+
 end GoImap.Wire
